@@ -547,15 +547,15 @@ def sched_enc_prog(instrs):
     return out
 
 # what each property's schedules are made of (weights of the ten label kinds)
-# guided schedules of the 'cow' profile also start make_mut (kind 10)
+# guided schedules of the 'cow' and 'unique' profiles also start make_mut (kind 10) and get_mut (kind 11)
 SCHED_PROFILES = {
-    'cow':    [[2, 4, 4, 3, 0, 4, 3, 2, 0, 17, 6], [5, 4, 3, 2, 0, 8, 3, 1, 0, 14, 5], [2, 3, 3, 2, 1, 4, 2, 3, 2, 16, 4]],
+    'cow':    [[2, 4, 4, 3, 0, 4, 3, 2, 0, 17, 6, 1], [5, 4, 3, 2, 0, 8, 3, 1, 0, 14, 5, 2], [2, 3, 3, 2, 1, 4, 2, 3, 2, 16, 4, 1]],
     'drops':  [[3, 5, 0, 0, 0, 5, 5, 0, 0, 18], [6, 4, 0, 0, 0, 8, 4, 0, 0, 14]],
-    'unique': [[2, 4, 4, 3, 2, 4, 3, 6, 0, 16], [5, 4, 3, 2, 1, 8, 3, 5, 0, 14]],
+    'unique': [[2, 4, 4, 3, 2, 4, 3, 4, 0, 16, 2, 3], [5, 4, 3, 2, 1, 8, 3, 3, 0, 14, 1, 3]],
     'unwrap': [[2, 4, 1, 1, 4, 4, 3, 2, 6, 18], [5, 3, 1, 1, 3, 8, 3, 2, 5, 14], [2, 3, 3, 2, 4, 4, 2, 5, 3, 16]],
 }
 # free schedules also use make_mut (10), get_mut (11), try_unwrap (12), is_unique (13)
-SCHED_FREE_EXTRA = {'drops': [0, 0, 0, 1], 'unique': [4, 4, 2, 2], 'unwrap': [2, 1, 5, 1], 'cow': [4, 2, 1]}
+SCHED_FREE_EXTRA = {'drops': [0, 0, 0, 1], 'unique': [2, 2], 'unwrap': [2, 1, 5, 1], 'cow': [1, 1]}
 def sched_gen(rng, profile, n, length, free=False):
     W = rng.choice(SCHED_PROFILES[profile])
     if free: W = W + SCHED_FREE_EXTRA[profile]
@@ -1753,8 +1753,8 @@ def gen_dpanic(tier, rng):
     # copy-on-write / unwrap_or_clone of a shared value whose type has no drop glue, is not Copy, and whose Clone is not a bitwise copy
     for j in range(0, 4): cases.append(('D%d' % n, [[44 + j, 0, 0]])); n += 1
     # zero-sized headers / payloads with drop glue through the constructors
-    for j in range(0, 19): cases.append(('D%d' % n, [[48 + j, 0, 0]])); n += 1
-    for op in ([29, 1, 0], [20, 40, 0], [45, 1, 1], [40, 1, 0], [75, 0, 0], [48, 1, 0]): cases.append(('D%d' % n, [op])); n += 1
+    for j in range(0, 22): cases.append(('D%d' % n, [[48 + j, 0, 0]])); n += 1
+    for op in ([29, 1, 0], [20, 40, 0], [45, 1, 1], [40, 1, 0], [75, 0, 0], [48, 1, 0], [70, 0, 0], [67, 0, 1]): cases.append(('D%d' % n, [op])); n += 1
     return cases
 
 def oracle_dpanic(ops, io, ctx):
@@ -1764,6 +1764,15 @@ def oracle_dpanic(ops, io, ctx):
     parts = ct_split(o)
     if len(parts) != 3: return 'malformed observation'
     d = parts[1]
+    if 67 <= op[0] < 70:
+        what = 'Arc::into_thin on zero-sized elements behind a recorded length that is not the real one (%s)' % ['recorded 5, real 2', 'recorded 0, real 3', 'thin, fat again, relabelled 7 through get_mut, real 2'][op[0] - 67]
+        if len(parts[2]) < 5: return 'malformed observation'
+        during, total, sixth, bad, outstanding = parts[2][:5]
+        real = [2, 3, 2][op[0] - 67]
+        if o[0] != 1: return '%s: the conversion did not refuse; the thin handle reports %d elements for %d real ones and %d destructors ran for %d values' % (what, max(bad - 1, 0), real, total, real + 1)
+        if total != real + 1: return '%s: %d destructor calls for the header and %d elements (each exactly once expected)' % (what, total, real)
+        if bad or outstanding: return '%s: a block was left behind or a dead value touched' % what
+        return None
     if 65 <= op[0] < 67:
         what = 'UniqueArc::from_header_and_uninit_slice with a length whose layout cannot be represented (%s)' % ['the slice alone overflows', 'header and count push it over'][op[0] - 65]
         if len(parts[2]) < 5: return 'malformed observation'
@@ -1887,6 +1896,7 @@ PROPS['C03']['streams'] = PROPS['C03']['streams'] + [SCHED_STREAM('unique')]
 PROPS['C08']['streams'] = PROPS['C08']['streams'] + [SCHED_STREAM('cow')]
 PROPS['C09']['streams'] = PROPS['C09']['streams'] + [SCHED_STREAM('unwrap')]
 PROPS['C08']['streams'] = PROPS['C08']['streams'] + [DPANIC_STREAM]
+PROPS['C10']['streams'] = PROPS['C10']['streams'] + [DPANIC_STREAM]
 PROPS['C01']['assumptions'] = PROPS['C01']['assumptions'] + ['a panicking payload destructor: Rust drop glue destroys the remaining fields and elements while unwinding and Box frees its memory on the unwind path (Ctor.run_dpanic; validated by the destructor-panic cases)']
 
 # C10 also holds for every header/element shape: the thin forms of the ptr stream and the layout stream (thin constructors)
